@@ -227,7 +227,8 @@ func TagSource(config *TagSourceConfig) func(*promise.Promise) (any, bool) {
 			decoder.DisallowUnknownFields()
 
 			// valid json is a match
-			if err := decoder.Decode(&recv); err == nil && recv.Type != "" {
+			// the json literal null decodes into a nil recv without an error
+			if err := decoder.Decode(&recv); err == nil && recv != nil && recv.Type != "" {
 				return recv, true
 			}
 
